@@ -869,6 +869,7 @@ fn c02(thorough: bool) -> Suite {
         &[env(2, 1, None, pb2(thorough))],
         false,
     ));
+    ps.extend(buffer_ring_family("c02-bufring", Class::P));
     ps.extend(states_family("c02-states", Class::P, &[Cap::B(1), Cap::B(2)], &[env(2, 1, None, Some(3))], thorough));
     Suite {
         cfg: cfg(&[Oracle::Fifo], &[], false, false),
@@ -1056,6 +1057,8 @@ fn c05(thorough: bool) -> Suite {
         &[env(2, 1, None, UNB)],
         false,
     ));
+    ps.extend(buffer_ring_family("c05-bufring", Class::DP));
+    ps.extend(buffer_ring_family("c05-bufring", Class::DL));
     ps.extend(states_family(
         "c05-states",
         Class::DP,
@@ -1289,6 +1292,63 @@ fn ring_family(name: &str, closers: bool, droppers: bool) -> Vec<Program> {
                     end.iter().map(opname).collect::<Vec<_>>().join(",")
                 );
                 ps.push(mk(nm, Cap::B(0), Class::DL, A, Conv::Clone, vec![t], e));
+            }
+        }
+    }
+    ps
+}
+
+/// Hidden state of the buffer: it, too, is a ring whose head moves with every
+/// receive.  `k` send/receive cycles (k = 0..=9), then `n` values buffered (so
+/// that they straddle the end of the allocation for some k), then one bulk
+/// operation: drain into each vector state, receive them all, close (the
+/// values are destroyed by its return), or every handle dropped (destroyed
+/// with the channel).  One thread, one execution each; results compared with
+/// the model, values accounted for by the drop ledger.
+fn buffer_ring_family(name: &str, class: Class) -> Vec<Program> {
+    let mut ps = Vec::new();
+    for cap in [Cap::B(2), Cap::B(3), Cap::Unbounded] {
+        let ns: &[usize] = match cap {
+            Cap::B(2) => &[2],
+            Cap::B(_) => &[3],
+            Cap::Unbounded => &[2, 3, 5],
+        };
+        for &n in ns {
+            for k in 0..=9usize {
+                let ends: Vec<(&str, Vec<Op>)> = vec![
+                    ("drain", vec![Op::Drain(VecState::Empty), Op::TryRecv]),
+                    ("drain-tight", vec![Op::Drain(VecState::Tight), Op::TryRecv]),
+                    ("drain-prefilled", vec![Op::Drain(VecState::Prefilled)]),
+                    ("recv-all", (0..=n).map(|_| Op::TryRecv).collect()),
+                    ("close", vec![Op::Close(Side::R), Op::TryRecv]),
+                    ("close-s", vec![Op::Close(Side::S), Op::Len(Side::S)]),
+                    ("drop-all", vec![Op::Len(Side::R)]),
+                    ("next", vec![Op::Next, Op::Drain(VecState::Spare)]),
+                ];
+                for (en, end) in ends {
+                    let mut ops = Vec::new();
+                    for _ in 0..k {
+                        ops.extend([Op::TrySend, Op::TryRecv]);
+                    }
+                    for _ in 0..n {
+                        ops.push(Op::TrySend);
+                    }
+                    ops.extend(end);
+                    // tags are (index + 1): keep them inside one byte
+                    if ops.len() > 60 {
+                        continue;
+                    }
+                    let t = spec(&ops, S, S);
+                    ps.push(mk(
+                        format!("{name}/{cap:?}/{class:?}/{k}xcycle+{n},{en}"),
+                        cap,
+                        class,
+                        S,
+                        Conv::Clone,
+                        vec![t],
+                        env(2, 1, None, Some(1)),
+                    ));
+                }
             }
         }
     }
@@ -2109,6 +2169,7 @@ fn c10(thorough: bool) -> Suite {
     ));
     ps.extend(release_family("c10-release", true, false));
     ps.extend(ring_family("c10-ring", true, false));
+    ps.extend(buffer_ring_family("c10-bufring", Class::DL));
     Suite {
         cfg: cfg(&[Oracle::Close, Oracle::Outcome, Oracle::Linear, Oracle::DropOnce, Oracle::Released], &STUCK, false, false),
         rule: "close issued by either side at any point against blocked / pending / buffered / in-flight operations of every kind, operations begun by the closing thread after close returned, second close, 3 threads; oracle: exactly one close succeeds, everything begun after its return fails Closed (counts 0, no value delivered), buffered values destroyed by close's return, blocked operations released, results in the model's outcome set".into(),
@@ -2770,6 +2831,7 @@ fn c19(thorough: bool) -> Suite {
             ]
         })
         .collect();
+    ps.extend(buffer_ring_family("c19-bufring", Class::DL));
     // channel states built by a setup prefix: k buffered + j pending senders
     ps.extend(product(
         "c19-state",
